@@ -2,7 +2,7 @@
 import math
 
 import envelope as E
-from common import compare_gen, is_real_finite, signatures
+from common import compare_gen, is_real_finite, signatures, time_limit, CallTimeout
 
 ID = 'C02'
 LEAN_MODULES = ['Dhlldv.Props.C02']
@@ -91,11 +91,17 @@ def monitor(ctx, extended=False):
         for name, fn in calls:
             ctx.count('evaluations')
             try:
-                r = fn()
+                with time_limit(20):
+                    r = fn()
                 if not finite(r):
                     ctx.violation(f'{name} returned a non-finite / non-real value {str(r)[:120]}', {'args': list(a)}, key='nonfinite:' + name)
                 elif name == 'Cvs_Erhg':
                     classes.add((r['regime'], d >= 0.015 * Dp))
+            except CallTimeout:
+                ctx.violation(f'{name} did not return within 20 s', {'args': list(a)}, key='no-return:' + name)
+                ctx.count('timeouts')
+                if ctx.stats.get('timeouts', 0) >= 3:
+                    return
             except Exception as e:   # noqa
                 ctx.violation(f'{name} raised {type(e).__name__}: {e}', {'args': list(a)}, key='raised:' + name)
     for _ in range(ctx.n(25, 1500) * (2 if extended else 1)):
